@@ -86,12 +86,15 @@ def shift_violation(cfg, c, seed):
 
 CONFIGS = [dict(kernel=k, resample=r, clustering=cl, vv=vv) for k in ("tpcn", "rwm") for r in ("mult", "syst")
            for cl in (False, True) for vv in (None, 0.5)]
+# tight volume-variation targets exercise the 'target too ambitious: stay' and the bisection branches of the reweighter
+TIGHT = [dict(kernel="tpcn", resample="mult", clustering=False, vv=0.05), dict(kernel="rwm", resample="syst", clustering=False, vv=0.03),
+         dict(kernel="tpcn", resample="syst", clustering=True, vv=0.1)]
 
 
 def correspond(tier):
     rng = common.rng_for("C10")
     c = Corr("paired-shift-runs", "toleranced (1e-8 relative; decision flips re-tested at c/2 and 2c)")
-    cfgs = CONFIGS if tier == "thorough" else [CONFIGS[i] for i in (0, 3, 5, 6, 9, 12, 14)]
+    cfgs = (CONFIGS + TIGHT) if tier == "thorough" else [CONFIGS[i] for i in (0, 3, 5, 6, 9, 12, 14)] + TIGHT[:2]
     shifts = [1.0, -1.0, 37.5, -37.5, 1000.0, -1000.0]
     for i, cfg in enumerate(cfgs):
         for cc in (shifts if tier == "thorough" else [shifts[i % 6], shifts[(i + 3) % 6]]):
@@ -106,7 +109,7 @@ def correspond(tier):
     drv = common.Driver()
     c2 = Corr("shifted-trace-replay", "toleranced Float")
     recs, lines = [], []
-    for i in range(4 if tier == "quick" else 24):
+    for i in range(8 if tier == "quick" else 40):
         kernel, resample = [("tpcn", "mult"), ("rwm", "syst"), ("tpcn", "syst"), ("rwm", "mult")][i % 4]
         cc = [37.5, -1000.0, 1000.0, -1.0][i % 4]
         prior, like0 = make_target(rng, 2, False)
@@ -136,7 +139,7 @@ def correspond(tier):
 def search(tier, hints):
     rng = common.rng_for("C10.search")
     found = []
-    for cfg in CONFIGS[:: (2 if tier == "quick" else 1)]:
+    for cfg in TIGHT + CONFIGS[:: (2 if tier == "quick" else 1)]:
         for cc in (37.5, -1000.0):
             v = shift_violation(cfg, cc, rng.randrange(2 ** 31))
             if v:
